@@ -192,7 +192,10 @@ class ComponentLink(object, metaclass=ContractsMeta):
         # In some cases, linking functions return ravelled arrays, so we
         # fix this here.
         logger.debug("shape of result: %s", result.shape)
-        if result.shape != args[0].shape:
+        if result.ndim == 0:
+            # The function returned a single value for all elements
+            result = np.broadcast_to(result, args[0].shape)
+        elif result.shape != args[0].shape:
             logger.debug("ComponentLink function %s changed shape. Fixing",
                          self._using.__name__)
             result.shape = args[0].shape
